@@ -44,6 +44,7 @@ class Consume(SymRule):
         SymRule.__init__(self, prog, fn)
         self.loop, self.rem_decl, self.rem_name, self.total, self.ops = loop, rem_decl, rem_name, total, dict(ops)
         self.data_ops = dict(data_ops or {})      # operation -> index of the data pointer it consumes
+        self.up = False           # True: the local counts the bytes handled so far (0 .. total) instead of what is left
         self.loop_line = None
         self.cursors = 0
         self.sym = None
@@ -81,8 +82,10 @@ class Consume(SymRule):
             if cur is not None:
                 if 'iter' not in ts:
                     self.inits.append(cur)
-                    if cur != self.total:
-                        self.problem('init', 'the remainder reaches the loop as %r, expected %r' % (cur, self.total), node)
+                    want0 = Lin(None, 0) if self.up else self.total
+                    if cur != want0:
+                        self.problem('init', 'the %s reaches the loop as %r, expected %r' % (
+                            'count' if self.up else 'remainder', cur, want0), node)
                 else:
                     self.backs += 1
                     step = [x[1] for x in ts if isinstance(x, tuple) and len(x) == 2 and x[0] == 'step']
@@ -92,7 +95,7 @@ class Consume(SymRule):
                             self.problem('decrease', 'an iteration without an operation changes the remainder to %r' % cur,
                                          node)
                     else:
-                        want = Lin({sym: 1}) - step[0]
+                        want = (Lin({sym: 1}) + step[0]) if self.up else (Lin({sym: 1}) - step[0])
                         if cur != want:
                             self.problem('decrease', 'after handling %r bytes the remainder becomes %r, expected %r' % (
                                 step[0], cur, want), node)
@@ -118,10 +121,11 @@ class Consume(SymRule):
             env, _ = self.env_of(ts)
             cur = env.get(self.rem_decl)
             if cur is not None:
-                w = fm_feasible(self.cons(ts) + [cur - Lin(None, 1)] + self.nonneg(ts, [cur]))
+                left = (self.total - cur) if self.up else cur
+                w = fm_feasible(self.cons(ts) + [left - Lin(None, 1)] + self.nonneg(ts, [left]))
                 if w is not None:
                     self.exit_ok = False
-                    self.problem('exit', 'the loop can be left with a remainder of %r > 0' % cur, node)
+                    self.problem('exit', 'the loop can be left with a remainder of %r > 0' % left, node)
         return ts
 
     def nonneg(self, ts, extra=()):
@@ -137,6 +141,8 @@ class Consume(SymRule):
             L = self.value(call.a[1 + self.ops[n]], ts)
             env, _ = self.env_of(ts)
             rem = env.get(self.rem_decl)
+            if rem is not None and self.up:
+                rem = self.total - rem
             if L is None or rem is None:
                 self.problem('bounded', '%s(): length %s is not a linear value' % (n, show(call.a[1 + self.ops[n]])), ctx.node)
                 return ts
@@ -172,11 +178,12 @@ class Consume(SymRule):
         return False
 
 
-def check_consume_loop(ck, prog, config, clause, fn, total_path, ops, rule_name='R4.chunk-loop', data_ops=None):
+def check_consume_loop(ck, prog, config, clause, fn, total_path, ops, rule_name='R4.chunk-loop', data_ops=None,
+                       mode='down', instance='consume-loop'):
     names = [n for n, i in ops]
     loops = loops_with_ops(fn, names)
     if not loops:
-        ck.ob(clause, rule_name, fn.name, 'consume-loop', False,
+        ck.ob(clause, rule_name, fn.name, instance, False,
               'chunk loop broken: no loop in %s() performs %s' % (fn.name, ' + '.join(names)), fn.file, fn.line, config=config)
         return False
     total = Lin({total_path: 1})
@@ -191,8 +198,13 @@ def check_consume_loop(ck, prog, config, clause, fn, total_path, ops, rule_name=
             v = fn.locals.get(d)
             if v is not None and not (v.t or '').rstrip().endswith('*'):
                 cands.append(v)
+        trials = []
         for v in sorted(cands, key=lambda x: x.op):
+            for up in ((False,) if mode == 'down' else (True,) if mode == 'up' else (False, True)):
+                trials.append((v, up))
+        for v, up in trials:
             r = Consume(prog, fn, lp, v.decl, v.op, total, ops, data_ops)
+            r.up = up
             run_rule(prog, fn, r)
             ok = not r.problems and r.inits and r.backs >= 1 and r.opcalls >= len(names) and \
                 (not data_ops or r.cursors >= 1)
@@ -217,6 +229,6 @@ def check_consume_loop(ck, prog, config, clause, fn, total_path, ops, rule_name=
         msg = 'chunk loop broken: no local of the loop at line %d behaves as the remainder of %s (init %s, back edges ' \
               '%d, operations %d)' % (lp.line, total_path, r.inits, r.backs, r.opcalls)
     node = r.problems[0][2] if r.problems else None
-    ck.ob(clause, rule_name, fn.name, 'consume-loop', ok, msg, fn.file, getattr(node, 'line', None) or lp.line,
+    ck.ob(clause, rule_name, fn.name, instance, ok, msg, fn.file, getattr(node, 'line', None) or lp.line,
           config=config)
     return ok
